@@ -127,6 +127,11 @@ def extract_config(fn):
         do_block(st.body, _and(guard, st.test, True))
         do_block(st.orelse, _and(guard, st.test, False))
         continue
+      if isinstance(st, ast.Expr) and isinstance(st.value, ast.Call) and \
+          var[0] not in names_read(st.value) and (dotted(
+              st.value.func) or '').split('.')[0] in ('logging', 'warnings',
+                                                      'print'):
+        continue        # a message: does not touch the config
       raise AnalysisError('%s: unmodelled statement in get_config: %s' % (
           fn.loc(st), norm_text(st)[:100]))
 
